@@ -146,7 +146,7 @@ def gen_prog(rng, cls):
     elif cls == "switchfail":
         # C08: a re-configuration switches stream 0 to another camera / storage whose open fails (busy, unplugged), then the client carries on
         which = rng.choice(["cam", "sto"])
-        faults = ["openfail %d 1" % (4 if which == "cam" else 5)]
+        faults = ["%s %d 1" % (rng.choice(["openfail", "descfail"]), 4 if which == "cam" else 5)]
         other = "cfg 0 cam=%d sto=%d w=%d h=%d type=%d n=%d" % (4 if which == "cam" else 0, 5 if which == "sto" else 2, w, h, t, n)
         prog = [cfg0, "configure"] + rng.choice([[], ["start", "stop"], ["start", "abort"]]) + [other, "configure"] + \
                rng.choice([["start", "stop"], ["state"], ["start", "abort"], []]) + rng.choice([[cfg0, "configure", "start", "stop"], [other, "configure", "start", "stop"], []]) + \
@@ -214,7 +214,7 @@ def gen_api(rng):
     # sometimes a device is busy/unplugged: its next open fails (a re-configuration that switches to it must leave nothing dangling)
     faults = []
     if rng.random() < 0.35:
-        faults = ["openfail %d %d" % (rng.choice([4, 5, 0, 2]), rng.choice([1, 1, 2]))]
+        faults = ["%s %d %d" % (rng.choice(["openfail", "openfail", "descfail"]), rng.choice([4, 5, 0, 2]), rng.choice([1, 1, 2]))]
     return {"cls": "api", "ring": ring, "prog": prog, "faults": faults}
 
 
